@@ -92,6 +92,34 @@ type BadStamped2 struct {
 	F    func()
 }
 
+// named types of unsupported kinds that carry methods of well-known interfaces (error, fmt.Stringer,
+// encoding.TextMarshaler): an encoder that dispatches on an interface before the kind must still refuse them
+type ErrFunc func() error
+
+func (ErrFunc) Error() string { return "errfunc" }
+
+type ErrChan chan int
+
+func (ErrChan) Error() string { return "errchan" }
+
+type ErrPhase complex128
+
+func (ErrPhase) Error() string  { return "errphase" }
+func (ErrPhase) String() string { return "phase" }
+
+type StrChan chan string
+
+func (StrChan) String() string { return "strchan" }
+
+type TextFunc func()
+
+func (TextFunc) MarshalText() ([]byte, error) { return []byte("textfunc"), nil }
+func (TextFunc) String() string               { return "textfunc" }
+
+type ErrUintptr uintptr
+
+func (ErrUintptr) Error() string { return "erruintptr" }
+
 type badKind struct {
 	name     string
 	make     func() interface{}
@@ -139,6 +167,13 @@ func badKinds() []badKind {
 		{"*nil-func", func() interface{} { var f func(); return &f }, true},
 		{"*uintptr", func() interface{} { u := uintptr(7); return &u }, true},
 		{"*complex128", func() interface{} { z := complex128(1i); return &z }, true},
+		{"named-func+Error", func() interface{} { return ErrFunc(func() error { return nil }) }, false},
+		{"named-chan+Error", func() interface{} { return ErrChan(make(chan int)) }, true},
+		{"named-complex+Error+String", func() interface{} { return ErrPhase(1 + 1i) }, true},
+		{"named-chan+String", func() interface{} { return StrChan(make(chan string)) }, true},
+		{"named-func+MarshalText", func() interface{} { return TextFunc(func() {}) }, false},
+		{"named-uintptr+Error", func() interface{} { return ErrUintptr(9) }, true},
+		{"*named-chan+Error", func() interface{} { c := ErrChan(make(chan int)); return &c }, true},
 	}
 }
 
